@@ -157,6 +157,33 @@ func VerifyFunc(ld *Loader, db *ContractDB, fn *ssa.Function, ct *FuncContract, 
 				ex.vc.Trust("ASSUMED specification of " + funcName(fn) + " (not proved): " + en.Text)
 				ex.abstracted["ASSUMED (not proved): ensures of "+funcName(fn)+": "+en.Text] = true
 			}
+		} else if ct != nil && ct.Opts["per_exit"] == "true" {
+			// post-conditions are proved at every return statement separately
+			// (smaller queries than on the merged exit state); locals that are
+			// not yet declared at an early return read their merged-exit value
+			ex.exitFallback = out
+			for _, e := range fr.exits {
+				if e.st.guard == "false" {
+					continue
+				}
+				for _, en := range ct.Ensures {
+					if hasProp(en.Props, "assumed") {
+						ex.vc.Trust("ASSUMED specification of " + funcName(fn) + " (not proved): " + en.Text)
+						ex.abstracted["ASSUMED (not proved): ensures of "+funcName(fn)+": "+en.Text] = true
+						continue
+					}
+					for _, part := range ex.splitClauseE(fr, e.st, e.results, en) {
+						if sk, ok := ex.skolemWithHyps(fr, e.st, part); ok {
+							part.term = sk
+						}
+						o := ex.oblige(e.st, fr, "post", token.NoPos, part.text, part.term)
+						if o != nil && len(en.Props) > 0 {
+							o.Props = en.Props
+						}
+					}
+				}
+			}
+			ex.exitFallback = nil
 		} else if ct != nil {
 			for _, en := range ct.Ensures {
 				if hasProp(en.Props, "assumed") {
@@ -828,6 +855,19 @@ func (c *evalCtx) compileAssign(e Expr, text string) []assignPat {
 			sort.Slice(out, func(i, j int) bool { return out[i].prefix < out[j].prefix })
 			return out
 		}
+		if x.Fn == "handlefile" && len(x.Args) == 1 {
+			// the ghost bytes and length behind an open file handle
+			v := c.eval(x.Args[0])
+			h, ok := v.V.(Sc)
+			if !ok {
+				c.errf("assigns %s: not a file handle", text)
+			}
+			return []assignPat{{prefix: handleBytesKey, ref: h.T, text: text}, {prefix: handleLenKey, ref: h.T, text: text}}
+		}
+		if x.Fn == "file" && len(x.Args) == 1 {
+			// the ghost state of the file of that name (all three components)
+			return []assignPat{{prefix: ghostFileKey, ref: z64(), text: text}, {prefix: ghostLenKey, ref: z64(), text: text}, {prefix: ghostExistsKey, ref: z64(), text: text}}
+		}
 	case *EIdent:
 		if strings.HasPrefix(x.Name, "$") {
 			return []assignPat{{prefix: "Ghost_" + strings.TrimPrefix(x.Name, "$"), ref: z64(), text: text}}
@@ -1246,4 +1286,29 @@ func exprText(e Expr) string {
 		return x.Fn + "(" + strings.Join(as, ", ") + ")"
 	}
 	return "?"
+}
+
+// checkGhostAssign: a library model is about to change ghost state (a file's
+// content, the bytes behind a handle, the datagram log); under an assigns
+// clause the component has to be listed.
+func (ex *Exec) checkGhostAssign(st *State, key, ref, what string, pos token.Pos) {
+	if !ex.assignsOn || ex.assignsAll {
+		return
+	}
+	alts := []string{}
+	for _, p := range ex.assigns {
+		if p.prefix != key && !hasPrefix(key, p.prefix) {
+			continue
+		}
+		if p.anyRef {
+			alts = append(alts, "true")
+			continue
+		}
+		alts = append(alts, eq(ref, p.ref))
+	}
+	goal := "false"
+	if len(alts) > 0 {
+		goal = or(alts...)
+	}
+	ex.oblige(st, ex.curFrame, "assigns", pos, what+" is modified but not listed in assigns", goal)
 }
